@@ -54,6 +54,7 @@ type laneState struct {
 	bodyOff int
 	sentAll bool
 	keepBlock bool
+	peerRST   bool // the peer itself reset the lane's stream
 	// sender-side flow control for this stream (peer → server)
 	sendWin int64
 	opsSent int
@@ -736,6 +737,32 @@ func (w *SrvWorld) laneEnabled(l *laneState) bool {
 	if l.next >= len(l.lane.Ops) {
 		return false
 	}
+	if l.lane.Offender != "" && l.id != 0 && l.next > 0 {
+		// a conforming peer stops sending on a stream once it has *received* the server's RST_STREAM or
+		// END_STREAM for it; what it sent before that is "in flight"
+		if ps := w.Streams[l.id]; ps != nil && (len(ps.RST) > 0 || ps.EndStreams > 0) && w.blockOwner != l {
+			l.sentAll = true
+			l.next = len(l.lane.Ops)
+			w.Probes["offender-stopped-after-rst"]++
+			return false
+		}
+	}
+	if l.next == 0 && l.lane.After == -3 {
+		for _, a := range w.lanes[:l.idx] {
+			if len(a.lane.Ops) == 0 {
+				continue
+			}
+			if !a.sentAll {
+				return false
+			}
+			if a.id != 0 && !a.peerRST {
+				ps := w.Streams[a.id]
+				if ps == nil || (ps.EndStreams == 0 && len(ps.RST) == 0) {
+					return false
+				}
+			}
+		}
+	}
 	if l.next == 0 && l.lane.After == -2 {
 		// wait for every lane that started unconditionally to have been answered
 		for _, a := range w.lanes {
@@ -780,6 +807,9 @@ func (w *SrvWorld) laneEnabled(l *laneState) bool {
 		return ps != nil && (ps.EndStreams > 0 || len(ps.RST) > 0)
 	case "wait-handler":
 		return w.Entries[l.idx] > 0
+	case "wait-resp-start":
+		ps := w.Streams[l.id]
+		return ps != nil && (len(ps.HdrBlocks) > 0 || len(ps.RST) > 0)
 	}
 	return true
 }
@@ -879,6 +909,9 @@ func (w *SrvWorld) laneSend(l *laneState) {
 		}
 		w.c2s.Inject(fb)
 	case "rst":
+		if id == l.id {
+			l.peerRST = true
+		}
 		w.c2s.Inject(w.fw.RST(id, op.Code))
 	case "wupd":
 		if op.OnConn {
@@ -926,7 +959,7 @@ func (w *SrvWorld) laneSend(l *laneState) {
 			pl = make([]byte, op.RawLen)
 		}
 		w.c2s.Inject(w.fw.Raw(op.RawType, op.RawFlags, id, pl))
-	case "wait-resp", "wait-handler":
+	case "wait-resp", "wait-handler", "wait-resp-start":
 		// pure synchronisation
 	}
 }
